@@ -774,7 +774,8 @@ def parseSampleInputs (ts : List String) : Option SampleInputs :=
  `laststate p now boundary | vh | samples…`
  `proof p now boundary boundaryG proofEmpty mmrOk | last-vh | header-vhs… | samples… | samplesG…`
  `tick now | p boundary samples… ; p boundary samples… ; …`
- `dump` -/
+ `dump`
+ `matched lastN lastHash startHash startNumber boundary | difficulties… | last-vh | header-vhs…` -/
 def stepLine (s : St) (line : String) : St × String :=
   let gs := groups "|" (tokens line)
   match gs with
@@ -819,6 +820,18 @@ def stepLine (s : St) (line : String) : St × String :=
         | .error e => (s, showPanic e))
      | _, _ => (s, "bad-op"))
   | ["dump"] :: _ => ({ s with rollbacks := [] }, showSt s)
+  | ("matched" :: a) :: ds :: last :: hs :: _ =>
+    -- `check_if_response_is_matched` alone (stateless)
+    (match natsOf a, natsOf ds, natsOf last, natsOf hs with
+     | some [ln, lastHash, startHash, startNumber, boundary], some ds, some last, some hs =>
+       (match parseVH last, parseVHs (hs.length + 1) hs with
+        | some (l, _), some hs =>
+          (match checkMatched ln ⟨lastHash, startHash, startNumber, ln, boundary, ds⟩ hs l with
+           | .ok (.ok (r, sc, k)) => (s, s!"ok {r} {sc} {k}")
+           | .ok (.error c) => (s, s!"err {c}")
+           | .error e => (s, showPanic e))
+        | _, _ => (s, "bad-op"))
+     | _, _, _, _ => (s, "bad-op"))
   | _ => (s, "bad-op")
 
 def initSt : St := ⟨100, 60000, 8000, 2, [], ⟨0, ⟨0, 0, 0, 0, 0, 0, ⟨0, 0, 0⟩, 0, true, true, true⟩, []⟩, []⟩
